@@ -1413,9 +1413,8 @@ impl ReaderState {
         let mut buf = Vec::new();
         let content = match reader.read_to_end_into(QName(&qname), &mut buf) {
             Ok(span) => {
-                let r = self.content[(span.start as usize)..(span.end as usize)]
-                    .trim()
-                    .to_string();
+                let raw = &self.content[(span.start as usize)..(span.end as usize)];
+                let r = Self::resolve_character_data(raw).trim().to_string();
                 #[cfg(feature = "Debug_Reader")]
                 debug!("{} content {} - {}: {}", tag, span.start, span.end, r);
                 r
@@ -1428,6 +1427,45 @@ impl ReaderState {
         self.pop();
 
         content
+    }
+
+    /// Resolves the character data of a raw source span (the children of an element as written in
+    /// the file): entity and character references are replaced, CDATA sections are taken literally
+    /// and comments are dropped. Markup of nested elements, including everything inside of them,
+    /// is copied unchanged (e.g. an inline \<scxml\> inside \<content\>, that is parsed again later).
+    fn resolve_character_data(raw: &str) -> String {
+        let mut out = String::with_capacity(raw.len());
+        let mut reader = Reader::from_str(raw);
+        let mut depth = 0usize;
+        let mut last = 0usize;
+        loop {
+            let event = reader.read_event();
+            let pos = reader.buffer_position() as usize;
+            match event {
+                Ok(Event::Eof) => break,
+                Ok(Event::Text(t)) if depth == 0 => match t.unescape() {
+                    Ok(text) => out.push_str(&text),
+                    Err(_) => out.push_str(&raw[last..pos]),
+                },
+                Ok(Event::CData(c)) if depth == 0 => out.push_str(&String::from_utf8_lossy(&c)),
+                Ok(Event::Comment(_)) if depth == 0 => {}
+                Ok(other) => {
+                    match other {
+                        Event::Start(_) => depth += 1,
+                        Event::End(_) => depth = depth.saturating_sub(1),
+                        _ => {}
+                    }
+                    out.push_str(&raw[last..pos]);
+                }
+                Err(_) => {
+                    // Not tokenizable: keep the rest as it is written.
+                    out.push_str(&raw[last..]);
+                    break;
+                }
+            }
+            last = pos;
+        }
+        out
     }
 
     fn start_content(&mut self, attr: &AttributeMap, reader: &mut XReader, has_content: bool) {
